@@ -42,7 +42,7 @@ def gen_specs(rng: random.Random, tier: str, n: int) -> list[dict]:
             cells = [[rng.randrange(g), rng.randrange(g)] for _ in range(rng.randint(2, 6))] + [[g - 1, g - 1 - rng.randrange(3)], [g - 2, rng.randrange(g)]]
             cfg = {"name": "narrow", "grid_n": g, "n_mazes": rng.randint(1, 3), "maze_ctor": rng.choice(["gen_dfs", "gen_dfs_percolation"]), "maze_ctor_kwargs": {}, "endpoint_kwargs": {rng.choice(["allowed_start", "allowed_end"]): cells}, "seed": rng.randrange(10**6), "applied_filters": [], "endpoint_repr": "int8-arrays"}
         hist = []
-        for _ in range(rng.choice([0, 0, 1, 1, 2])):
+        for _ in range(rng.choice([0, 0, 1, 1, 2]) if rng.random() > 0.03 else rng.randint(10, 16)):  # a few long parent histories
             hist.append(
                 {
                     "cfg": _ds.rand_cfgspec(rng, max_n=6, max_mazes=4, filters=False, rich_endpoints=False),
